@@ -110,6 +110,7 @@ def run_generic(pid, tier, seed, mon_factory, required_witness, rule, assumption
         heap_stress.run(res, mon_factory, tier, seed, ns=heap_ns, variants=heap_variants)
         if layouts:
             heap_stress.run_layouts(res, mon_factory, tier, seed)
+            heap_stress.run_ties(res, mon_factory, tier, seed)
     res.assumptions = list(assumptions) + [
         "operations are drawn from the stated finite alphabets; histories longer than the stated depth are not explored",
         "the market is driven through the same private interface the runner uses (_add_order, _cancel_order, _execution, _update_time, _is_running)",
@@ -118,7 +119,7 @@ def run_generic(pid, tier, seed, mon_factory, required_witness, rule, assumption
 
 
 def replay_generic(payload, mon_factory):
-    if payload.get("engine") == "F" and payload.get("grid") in ("deep_one_sided_books", "heap_layouts"):
+    if payload.get("engine") == "F" and payload.get("grid") in ("deep_one_sided_books", "heap_layouts", "books_with_ties"):
         from .. import heap_stress
         v = heap_stress.replay(payload, mon_factory)
         if v is None:
